@@ -162,15 +162,23 @@ def proof_obligations(prop, tier, log):
 # step 3: harness
 def build_harness(prop, log):
     os.makedirs(BUILD, exist_ok=True)
+    import shutil
     try:
-        import shutil
         shutil.copy(os.path.join(REPO, "go.sum"), os.path.join(HARNESS, "go.sum"))
     except Exception as e:  # noqa
         log.append("cp go.sum: %s" % e)
     exe = os.path.join(BUILD, "onetharness_" + prop)
     if os.path.exists(exe):
         os.remove(exe)
-    rc, out = sh(["go", "build", "-tags", "verif", "-o", exe, "./cmd/onetharness"], cwd=HARNESS, env=GOENV)
+    cmd = ["go", "build", "-tags", "verif", "-o", exe]
+    if os.path.realpath(REPO) != "/repo":
+        # self-test against a scratch worktree: same module file with the replace directive redirected
+        mf = os.path.join(BUILD, "go_%s.mod" % prop)
+        src = open(os.path.join(HARNESS, "go.mod")).read().replace("=> /repo", "=> " + os.path.realpath(REPO))
+        open(mf, "w").write(src)
+        shutil.copy(os.path.join(REPO, "go.sum"), os.path.join(BUILD, "go_%s.sum" % prop))
+        cmd += ["-modfile", mf]
+    rc, out = sh(cmd + ["./cmd/onetharness"], cwd=HARNESS, env=GOENV)
     log.append(out[-4000:])
     return rc == 0, out
 
